@@ -1,6 +1,7 @@
 package core
 
 import (
+	"errors"
 	"fmt"
 
 	jschema "github.com/jsightapi/jsight-schema-go-library"
@@ -47,8 +48,27 @@ func (f *usedUserTypeFetcher) fetch(ut jschema.Schema) error {
 		f.alreadyProcessed[t] = struct{}{}
 		f.usedUserTypes = append(f.usedUserTypes, t)
 		if err := f.fetch(f.userTypes.GetValue(t)); err != nil {
-			return fmt.Errorf("process type %q: %w", t, err)
+			var e usedUserTypeError
+			if errors.As(err, &e) {
+				return err // the innermost type is the one the error is about
+			}
+			return usedUserTypeError{name: t, err: err}
 		}
 	}
 	return nil
+}
+
+// usedUserTypeError is an error which was got while the used user type was processed:
+// its position is a position in the body of that type.
+type usedUserTypeError struct {
+	err  error
+	name string
+}
+
+func (e usedUserTypeError) Error() string {
+	return fmt.Sprintf("process type %q: %s", e.name, e.err)
+}
+
+func (e usedUserTypeError) Unwrap() error {
+	return e.err
 }
